@@ -12,6 +12,8 @@ import (
 // Layout: root/parameter -> symlink to the repository's parameter folder (or a copy if paramCopy != ""),
 // root/project/<Project>/..., root/weather/<Folder>/...
 func (sc *Scenario) Materialize(root string, resultDir string) ([]string, error) {
+	hotGen = sc.Hot
+	defer func() { hotGen = false }()
 	sc.refitCenturySplit()
 	proj := filepath.Join(root, "project", sc.Project)
 	wdir := filepath.Join(root, "weather", sc.Weather.Folder)
